@@ -3,6 +3,7 @@ CONSTANTS
   Conns = @@CONNS@@
   MaxReq = @@MAXREQ@@
   NoConn = NoConn
+  Listeners = @@LISTENERS@@
   CloseOnShutdown = @@COS@@
   FlushOnStop = @@FLUSH@@
   AtomicIdleClose = @@ATOMIC@@
